@@ -1,4 +1,4 @@
-from armulator.armv6.bits_ops import signed_sat_q, to_signed, to_unsigned
+from armulator.armv6.bits_ops import signed_sat_q, to_signed, sign_extend
 from armulator.armv6.opcodes.opcode import Opcode
 from armulator.armv6.shift import shift
 
@@ -17,6 +17,6 @@ class Ssat(Opcode):
             operand = shift(processor.registers.get(self.n), 32, self.shift_t, self.shift_n,
                             processor.registers.cpsr.c)
             result, sat = signed_sat_q(to_signed(operand, 32), self.saturate_to)
-            processor.registers.set(self.d, to_unsigned(result, 32))
+            processor.registers.set(self.d, sign_extend(result, self.saturate_to, 32))
             if sat:
                 processor.registers.cpsr.q = 1
